@@ -54,6 +54,7 @@ var tokenBytes = map[string][]string{
 	"u2": {"\xc3\xa9", "\xc2\x80", "\xdf\xbf"}, "u3": {"\xe2\x82\xac", "\xe0\xa0\x80", "\xef\xbf\xbd", "\xed\x9f\xbf", "\xee\x80\x80", "\xe2\x80\xa7", "\xe2\x80\xaa"},
 	"ls": {"\xe2\x80\xa8"}, "ps": {"\xe2\x80\xa9"}, "u4": {"\xf0\x9f\x98\x80", "\xf4\x8f\xbf\xbf", "\xf0\x90\x80\x80"},
 	"xff": {"\xff", "\xf5", "\xfe", "\xf8"}, "xc0": {"\xc0", "\xc1"}, "cont": {"\x80", "\xbf"}, "tr3": {"\xe2\x82", "\xe2\x80"}, "sur": {"\xed\xa0\x80", "\xed\xbf\xbf"},
+	"tr4": {"\xf0\x90\x80", "\xf4\x8f\xbf", "\xf1\x80\x80"}, "tr42": {"\xf0\x90", "\xf4\x8f"},
 }
 
 // scalar names of the decoder export
@@ -556,7 +557,7 @@ func Run(job *wk.Job, w *wk.Worker) error {
 		}
 		for _, n := range names {
 			// a truncated sequence followed by a continuation byte would be a different (well-formed) token
-			if len(seq) > 0 && (seq[len(seq)-1] == "tr3") && n == "cont" {
+			if len(seq) > 0 && (seq[len(seq)-1] == "tr3" || seq[len(seq)-1] == "tr4" || seq[len(seq)-1] == "tr42") && n == "cont" {
 				continue
 			}
 			rec(append(seq, n))
